@@ -146,8 +146,12 @@ def c07(c):
     c.notes.append("Elligator inputs constructed so that the inner square-root-of-ratio call sees every table-digit class of "
                    "SqrtPlan (boundary dlogs, roots of unity of every order, single bits, zeta^k, every %s digit value): %s"
                    % ("16th" if c.tier != "thorough" else "", st))
+    pairs, pst = gen_elligator_pairs(scale(c.tier, 60, 1000))
+    c.notes.append("two-input hash on input pairs constructed (tools/elligator_pairs.py: roots of S den - num, S den - r num, r -> 1/r) "
+                   "as candidates for equal or opposite images: %s" % pst)
     for b in ("ark", "min"):
         c.trace(b, "ellfile", 0, ell)
+        c.trace(b, "h2cfile", 0, pairs)
         c.trace(b, "ell", scale(c.tier, 1500, 40000))
     return c.finish()
 
@@ -264,9 +268,15 @@ def c12(c):
     ell, dec, st = gen_isqrt_inputs(scale(c.tier, 16, 1))
     plan, nplan = gen_plan("DecodePlan.tla", "cfg/DecodePlan.cfg", "dec")
     c.notes.append("paired streams on constructed inputs: %s; DecodePlan %d strings" % (st, nplan))
+    pairs, pst = gen_elligator_pairs(scale(c.tier, 40, 400))
+    fplan, nf = gen_plan("FieldPlan.tla", "cfg/FieldPlan.cfg", "field")
+    c.notes.append("paired streams also on Elligator input pairs constructed to have equal / opposite images (%s) and on the %d operand "
+                   "pairs of FieldPlan (result residues, equality pairs by residue difference)" % (pst, nf))
     streams += [("equivfile", 0, ell, "SessionTrace.tla", "cfg/SessionTrace.cfg"),
                 ("equivfile", 0, dec, "SessionTrace.tla", "cfg/SessionTrace.cfg"),
-                ("equivfile", 0, plan, "SessionTrace.tla", "cfg/SessionTrace.cfg")]
+                ("equivfile", 0, plan, "SessionTrace.tla", "cfg/SessionTrace.cfg"),
+                ("equivfile", 0, pairs, "SessionTrace.tla", "cfg/SessionTrace.cfg"),
+                ("fequivfile", 0, fplan, "FieldTrace.tla", "cfg/FieldTrace.cfg")]
     for (suite, n, arg, module, cfg) in streams:
         la = record("ark", suite, n, arg)
         lm = record("min", suite, n, arg)
